@@ -19,7 +19,9 @@ MANIFEST = dict(
           "(the printers are compared with each other, leaf formatting abstract in the theorem)"),
     technique="Lean 4 proof over executable model + differential correspondence (C harness vs compiled Lean driver) + python RFC 6901 oracle")
 MODULE = "IwModel.Props.C14"
-THEOREMS = []
+THEOREMS = [
+    "IwModel.C14.binn_roundtrip", "IwModel.C14.writer_rejects_bad_keys", "IwModel.C14.nul_string_cut",
+]
 
 H = lambda b: binascii.hexlify(bytes(b)).decode() or "-"
 
